@@ -243,13 +243,14 @@ func (w *Worker) runPath(s *State) {
 				continue
 			}
 			if _, vis, _ := w.visibleSig(s, f); vis {
-				if !s.grant {
+				if !s.grant && !s.midOp {
 					if !w.schedule(s) {
 						bail("pruned by sleep set")
 					}
 					continue
 				}
 				s.grant = false
+				s.midOp = true
 			}
 		}
 		var pending *goPanic
@@ -266,6 +267,7 @@ func (w *Worker) runPath(s *State) {
 			f()
 		}
 		catch(func() { w.step(s) })
+		s.midOp = false
 		for pending != nil { // a Go panic raised by the step, or by a deferred call run while unwinding
 			gp := pending
 			pending = nil
